@@ -38,6 +38,10 @@ func (v *LogScopeVariables) Get(s context.Scope, name string) (value.Value, erro
 
 	switch name {
 	case BEREQ_BODY_BYTES_WRITTEN:
+		// No backend request was made on this path (e.g. error in vcl_recv)
+		if bereq == nil || bereq.Body == nil {
+			return &value.Integer{Value: 0}, nil
+		}
 		var buf bytes.Buffer
 		if _, err := buf.ReadFrom(bereq.Body); err != nil {
 			return value.Null, errors.WithStack(err)
@@ -52,6 +56,9 @@ func (v *LogScopeVariables) Get(s context.Scope, name string) (value.Value, erro
 		return &value.Integer{Value: 0}, nil
 
 	case BEREQ_HEADER_BYTES_WRITTEN:
+		if bereq == nil {
+			return &value.Integer{Value: 0}, nil
+		}
 		var headerBytes int64
 		// FIXME: Do we need to include total byte header LF bytes?
 		for k, v := range bereq.Header {
